@@ -257,9 +257,9 @@ func (l *lcg) Intn(n int) int {
 }
 
 func randomValid(r *lcg, k int) reqIn {
-	ops := []string{"opA", "opB", "opC", "opD"}
+	ops := []string{"opA", "opB", "opC", "opD", "opE"}
 	med := []string{"json", "text"}
-	q := reqIn{Op: ops[r.Intn(4)], ID: fmt.Sprintf("i%d", k), Body: fmt.Sprintf("b%d", k),
+	q := reqIn{Op: ops[r.Intn(5)], ID: fmt.Sprintf("i%d", k), Body: fmt.Sprintf("b%d", k),
 		Ctype: med[r.Intn(2)], Accept: med[r.Intn(2)], Cs: "-", Cu: "-", Rt: "ok", Q: "ok", H: "ok"}
 	users := []string{"u1", "u2", "u3"}
 	switch q.Op {
@@ -307,10 +307,12 @@ func execHist(c *drv.Ctx, d M) bool {
 			} else {
 				ret = []string{mt}
 			}
-		case "ResponseFormat", "ResponseFormatText":
+		case "ResponseFormat", "ResponseFormatText", "ResponseFormatCharset":
 			offers := []string{"application/json", "text/plain"}
 			if name == "ResponseFormatText" {
 				offers = []string{"text/plain"}
+			} else if name == "ResponseFormatCharset" {
+				offers = []string{"text/plain; charset=utf-8"}
 			}
 			f, r2 := b.ctx.ResponseFormat(req, offers)
 			next = r2
